@@ -34,7 +34,14 @@ _TOKEN_RE = re.compile(r"^[A-Za-z0-9!#$%&'*+\-.^_`|~]+$")
 
 # anomalies that make the *structure* of the header block ambiguous (a lenient reader may see other
 # header fields than a strict one) -> such inputs are never classified accept/reject
-STRUCTURAL = frozenset(["bare-cr", "bare-lf", "ctl", "obs-fold", "no-colon", "bad-name", "bad-start-line"])
+STRUCTURAL = frozenset(["bare-cr", "bare-lf", "ctl", "obs-fold", "no-colon", "bad-name", "bad-start-line", "obs-text-hs"])
+
+# header fields the handshake looks at: obs-text (octets >= 0x80) INSIDE one of them is a leniency zone (str.strip() also
+# strips NBSP/NEL, .lower() on Latin-1 letters ...) -> grey.  obs-text in any OTHER field is legal field-content (RFC 7230
+# 3.2.6) and must not change how the handshake fields are read, so the verdict stands.
+HS_FIELDS = frozenset(["host", "upgrade", "connection", "origin", "sec-websocket-key", "sec-websocket-version",
+                       "sec-websocket-protocol", "sec-websocket-extensions", "sec-websocket-origin", "sec-websocket-accept",
+                       "x-forwarded-for", "content-length", "transfer-encoding"])
 
 KNOWN_PMCE = frozenset(["permessage-deflate", "permessage-bzip2", "permessage-snappy", "permessage-brotli"])
 
@@ -101,7 +108,12 @@ class Head:
             name = ln[:i]
             if not name or any(c not in TOKEN_CHARS for c in name):
                 self.anomalies.add("bad-name")
-            self.headers.append((name.decode("latin-1").lower(), ln[i + 1:].strip(b" \t").decode("latin-1")))
+            lname = name.decode("latin-1").lower()
+            if lname in HS_FIELDS and any(c >= 0x80 for c in ln):
+                self.anomalies.add("obs-text-hs")
+            self.headers.append((lname, ln[i + 1:].strip(b" \t").decode("latin-1")))
+        if any(c >= 0x80 for c in lines[0]):
+            self.anomalies.add("obs-text-hs")
 
     def values(self, name):
         return [v for (n, v) in self.headers if n == name]
@@ -380,6 +392,9 @@ def classify_request(data, cfg):
         exts, ok = parse_extensions(h.list_elements("sec-websocket-extensions"))
         if not ok:
             grey.append("extensions-syntax")
+        if len(h.values("sec-websocket-extensions")) > 1:
+            # RFC 6455 9.1/11.3.2 allow the split, section 4 (the property's scope) is silent: not asserted
+            grey.append("extensions-split-header")
         for name, params in exts:
             info["ext_names"].add(name)
             if name in KNOWN_PMCE:
